@@ -196,6 +196,7 @@ func init() {
 		linted, rejected := 0, 0
 		classes := map[string]int{}
 		lintCert := func(der []byte, why string, detail map[string]interface{}) {
+			tick()
 			c, err := safeParseCert(der)
 			if err != nil {
 				rejected++
